@@ -287,6 +287,17 @@ func Bytes(b []byte) string {
 	return List(s)
 }
 
+// HexBytes prints a byte string as the dense literal (hb n 0x...) of Cases.v.
+func HexBytes(b []byte) string {
+	if len(b) == 0 {
+		return "(hb 0 0)"
+	}
+	if len(b) <= 2 {
+		return Bytes(b)
+	}
+	return fmt.Sprintf("(hb %d 0x%s)", len(b), hex.EncodeToString(b))
+}
+
 func Opt(s *string) string {
 	if s == nil {
 		return "None"
